@@ -111,6 +111,12 @@ func c14Scenario(c *choice.Ctx, rep *report.R, k c14Kind) {
 	ncall := 0
 	newc := func() *call { cl := newCall(ncall, 0); ncall++; return cl }
 	var all []*call
+	finished := false
+	defer func() {
+		if !finished {
+			abandon(tr, d, &all)
+		}
+	}()
 	basic := func(cl *call) {
 		if cl.panicked != nil {
 			fail("panic", fmt.Sprintf("exchange %d: %v", cl.idx, cl.panicked))
@@ -363,6 +369,7 @@ func c14Scenario(c *choice.Ctx, rep *report.R, k c14Kind) {
 	for _, cl := range all {
 		st = append(st, cl.String())
 	}
+	finished = true
 	rep.Eval(k.name + ":" + strings.Join(trace, ",") + "=>" + strings.Join(st, ","))
 	rep.State(fmt.Sprintf("%s|%v|%d|%d", k.name, st, d.NumConns(), totalFaults))
 }
